@@ -296,11 +296,23 @@ func c38Token(cl *pxClient, token string) (bool, string) {
 	return true, ""
 }
 
+// after three sessions were seen hanging for the full deadline the run is a violation anyway: the remaining
+// cases get a short deadline so that a defect that makes many inputs hang does not take hours to report
+var c38Hangs int
+
+func c38Deadline() time.Duration {
+	if c38Hangs >= 3 {
+		return 5 * time.Second
+	}
+	return c38Timeout
+}
+
 func c38First(cl *pxClient, responds bool) (string, string) {
-	cl.c.SetReadDeadline(time.Now().Add(c38Timeout))
+	cl.c.SetReadDeadline(time.Now().Add(c38Deadline()))
 	d, err := cl.readPacket()
 	if err != nil {
 		if pxIsTimeout(err) {
+			c38Hangs++
 			return "hang", err.Error()
 		}
 		return "closed", err.Error()
